@@ -226,6 +226,26 @@ class SmallSet {
   SmallSet() noexcept(std::is_nothrow_default_constructible<VecType>::value
                           &&std::is_nothrow_default_constructible<SetType>::value) = default;
 
+  SmallSet(const SmallSet &) = default;
+  SmallSet(SmallSet &&) = default;
+  SmallSet &operator=(SmallSet &&) = default;
+
+  /// Copy assignment gives the basic exception guarantee: if copying an element throws, the set is left empty
+  /// (the inline vector and the backing set would otherwise be left in states that do not belong together)
+  SmallSet &operator=(const SmallSet &o) {
+    if (this != &o) {
+      try {
+        _vec = o._vec;
+        _set = o._set;
+      } catch (...) {
+        _vec.clear();
+        _set.clear();
+        throw;
+      }
+    }
+    return *this;
+  }
+
   explicit SmallSet(const Compare &comp, const Alloc &alloc = Alloc()) : _set(comp, alloc) {}
 
   explicit SmallSet(const Alloc &alloc) : _set(alloc) {}
